@@ -90,6 +90,15 @@ CHECKS = {
              "caller-supplied parameterizer only appended to.",
         ref="6/C02", technique="TLA+ interleaving model with measured write footprint (PT_RenderConc) + TLC trace judge of recorded renders (J_Render)",
         note=TLC_NOTE + " Thread schedules and hash seeds are sampled; the all-interleavings claim is on the model, bound to the code by the measured footprint."),
+    "C04": dict(
+        text="PT_Param specifies the dialect placeholder text, the literal spans that decode to a value, and ParamEquiv as a parallel walk of the inline and the "
+             "parameterised token streams (identical at every non-placeholder position; the k-th placeholder has the dialect's text and stands where the inline "
+             "stream has one literal decoding to values[k]; all values consumed, in order, plain data) plus Residue (no parameterised value's text left). TLC grows "
+             "value-bearing programs: 5 statement kinds, ~25 value-bearing clause calls (constants, arithmetic, CASE, function args, arrays, GROUP BY expressions, "
+             "HAVING, JOIN ON, ORDER BY, WHERE =/IN/BETWEEN/bool, LIMIT/OFFSET, INSERT rows, upsert updates, SET) with pairwise distinct fresh values in up to 2 "
+             "(quick) / 3 (thorough) clauses; each is placed at 6 nesting positions (top, subquery in FROM / IN / select item, set operation, CTE) and rendered both "
+             "ways under the 6 dialect classes; J_C04 (TLC) walks the two real token streams; SQLite executes both forms on a small database.",
+        ref="6/C04", technique="TLA+ parallel-walk relation between two real renderings (PT_Param); TLC-grown value-bearing programs; TLC judge (J_C04); sqlite3 execution of both forms"),
     "C05": dict(
         text="TLC proves on the specification that the intended string/identifier encoders round-trip through the reference lexer of every "
              "dialect, stand-alone and embedded, for all strings over a 20-class adversarial alphabet up to length 2 (quick) / 3 (thorough). "
